@@ -24,6 +24,8 @@ LEVEL_TEXT = ("Coq theorems about the Gallina model Model/Weights.v + Model/Eval
               "NURBS view machine over arbitrary operation lists, setter round trips, weight-scaling invariance (all kinds), unit-weight "
               "equivalence (curves, surfaces, volumes, every parameter), GridWeighted own-weight and cache invariant; model tied to /repo by "
               "five correspondence families evaluated in Coq")
+# functions of the numerical core this property rests on that are also tied by the translator (tie theorems: Proofs/GenTie*.v, restated in Props/)
+TRANSLATED = ["compatibility.generate_ctrlptsw", "compatibility.generate_ctrlptsw2d", "compatibility.generate_ctrlpts_weights", "compatibility.generate_ctrlpts2d_weights", "compatibility.combine_ctrlpts_weights", "compatibility.separate_ctrlpts_weights"]
 TECHNIQUE = "machine-checked proof in Coq over a hand-written Gallina model + model/implementation correspondence check evaluated by coqc (vm_compute) + exact Fraction oracles"
 
 TOL8 = 10e-8
